@@ -16,7 +16,7 @@ pub fn property() -> Property {
     Property {
         id: "C02",
         level: "exploration",
-        rule: "family `history`: a scripted reference peer sends a generated history of SYN/PSH/FIN/SYNACK frames over the id pool {0, 1..6, 0xFFFFFFFF} (PSH before SYN, PSH/FIN after FIN, FIN for never-opened ids, duplicate SYN, id reuse after FIN, stray SYNACKs) to a real server session, or - with the session opening the streams itself - to a real client session; every payload byte is keyed by the stream instance it belongs to; a reference model (id -> never opened | open(instance) | finished) says what each instance must have read and whether it must have seen end-of-stream. Family `concurrent`: 2-8 concurrent streams between two real sessions with interleaved writers and instance-keyed bytes. Non-trivial = >= 2 simultaneously open streams and >= 1 stray/stale/duplicate frame, or >= 2 writers. Distinct = distinct serialized case. In the client role four cases in ten install forced pre-emptions (H1, including the points inside open_stream) and leave frames in flight during an open whenever none of the frames sent since the session last drained can belong to the next stream (ids at or below the highest id opened so far, or 0xFFFFFFFF). Histories also contain local sends: the session under test sends 1-3000 keyed bytes with send_data on any of its instances so far (also ones the peer has finished); at the end the scripted peer's view is judged - for every id with a single instance the peer received a prefix of what was sent, and at least everything that was sent before the peer's FIN for that instance (data of a live stream never disappears, whatever happened on other streams).",
+        rule: "family `history`: a scripted reference peer sends a generated history of SYN/PSH/FIN/SYNACK frames over the id pool {0, 1..6, 0xFFFFFFFF} (PSH before SYN, PSH/FIN after FIN, FIN for never-opened ids, duplicate SYN, id reuse after FIN, stray SYNACKs) to a real server session, or - with the session opening the streams itself - to a real client session; every payload byte is keyed by the stream instance it belongs to; a reference model (id -> never opened | open(instance) | finished) says what each instance must have read and whether it must have seen end-of-stream. Family `concurrent`: 2-8 concurrent streams between two real sessions with interleaved writers and instance-keyed bytes. Non-trivial = >= 2 simultaneously open streams and >= 1 stray/stale/duplicate frame, or >= 2 writers. Distinct = distinct serialized case. In the client role four cases in ten install forced pre-emptions (H1, including the points inside open_stream) and leave frames in flight during an open whenever none of the frames sent since the session last drained can belong to the next stream (ids at or below the highest id opened so far, or 0xFFFFFFFF). Histories also contain local sends: the session under test sends 1-3000 keyed bytes with send_data on any of its instances so far (also ones the peer has finished); at the end the scripted peer's view is judged - for every id with a single instance the peer received a prefix of what was sent, and at least everything that was sent before the peer's FIN for that instance (data of a live stream never disappears, whatever happened on other streams). One concurrent case in five runs over a transport that delivers nothing for 1-31 s after n delivered bytes and then recovers (capacity <= 1024).",
         assumptions: vec![
             "reference codec and the id->instance model in harness/src/props/c02.rs",
             "tokio paused clock / current-thread scheduler; harness pipe",
